@@ -1,3 +1,6 @@
 package peer
 
-const c31Steps = 5
+const (
+	c31Steps = 5
+	c32Steps = 5
+)
